@@ -54,7 +54,14 @@ for name in sorted(conf):
     what = what if len(what) < 110 else what[:107] + "..."
     needs = (meta.get("needs_to_manifest") or "")
     needs = needs if len(needs) < 140 else needs[:137] + "..."
-    rows.append((name, what, needs, ", ".join(f"{c}: {'caught' if e == 1 else 'MISSED' if e == 0 else 'tool error'}" for c, e in detected)))
+    def verdict(c, e):
+        if e == 1:
+            return "caught"
+        if e == 0 and c != prop:
+            return "silent (the change does not break this property)"
+        return "MISSED" if e == 0 else "tool error"
+    remark = " ".join(x for x in (DET.get(name + ":history"), DET.get(name + ":note")) if x)
+    rows.append((name, what, needs, ", ".join(f"{c}: {verdict(c, e)}" for c, e in detected) + ((" - " + remark) if remark else "")))
 with open("/verif/seeded/TABLE.md", "w") as f:
     f.write("| Seeded change | What it does | Needs to manifest | Quick checks run against it |\n|---|---|---|---|\n")
     for r in rows:
